@@ -527,6 +527,19 @@ WithInject(pk, plan) ==
   IF plan.inject.kind = "none" THEN pk
   ELSE LET i == Min2(plan.inject.at, Len(pk)) IN Sub(pk, 1, i) \o <<InjectedEv(plan)>> \o Sub(pk, i + 1, Len(pk))
 
+\* What the harness's master serves: Served, plus the PREVIOUS_GTIDS event that follows the FORMAT_DESCRIPTION of every file
+\* served from its beginning when the log has GTIDs on (the event belongs to the file header, not to a unit).
+PrevEv == [k |-> "prevgtids", cat |-> "none", fake |-> TRUE, ts |-> "0", end |-> "0"]
+HasPrevAtStart(S, rot) == \E i \in 1..Len(Files(S)) : Files(S)[i].name = rot.rotfile /\ Files(S)[i].prev /\ rot.rotpos = Files(S)[i].first
+RECURSIVE WithPrev(_, _, _)
+WithPrev(S, pk, lastRot) ==
+  IF pk = <<>> THEN <<>>
+  ELSE LET e == Head(pk) IN
+       IF e.k = "rotate" /\ e.fake THEN <<e>> \o WithPrev(S, Tail(pk), e)
+       ELSE IF e.k = "fde" /\ lastRot.k = "rotate" /\ HasPrevAtStart(S, lastRot) THEN <<e, PrevEv>> \o WithPrev(S, Tail(pk), lastRot)
+       ELSE <<e>> \o WithPrev(S, Tail(pk), lastRot)
+ServedByMaster(S, pos) == WithPrev(S, Served(Files(S), pos), [k |-> "none"])
+
 \* one parser iteration on event ev with the pending recorded answers hs (handler) and ms (mapper)
 StepInfo(st, ev, hs, ms, acc) ==
   CHOOSE r \in
@@ -549,6 +562,13 @@ CallerHookNames(S, a) ==
   IN [i \in 1..Len(hooks) |-> hooks[i].p]
 
 FirstIndex(q, v) == IF \E i \in 1..Len(q) : q[i] = v THEN CHOOSE i \in 1..Len(q) : q[i] = v /\ \A j \in 1..(i - 1) : q[j] # v ELSE 0
+
+\* attempts DRIFT.parser applies to: hook-traced, the parser ran, exactly one dump request at a valid position
+ParserApplicable(S, a) ==
+  LET sh == CallerHookNames(S, a)  dump == DumpOf(S, a) IN
+  /\ Plan(S, a).hookTrace /\ FirstIndex(sh, "stream.spawned") # 0 /\ FirstIndex(sh, "stream.parsed") # 0
+  /\ Len(dump) = 1 /\ Files(S) # <<>> /\ IsBoundary(Files(S), [file |-> dump[1].file, off |-> dump[1].off])
+ParserChecked(S) == Cardinality({a \in 0..(NAttempts(S) - 1) : ParserApplicable(S, a)})
 
 MonDriftParser(S) ==
   UNION {
@@ -577,7 +597,7 @@ MonDriftParser(S) ==
                  (IF a + 1 < NAttempts(S) /\ Len(nxt) = 1 /\ ~(\E x \in {Lines(S, "setpos")[j] : j \in 1..Len(Lines(S, "setpos"))} : x.att = a + 1)
                      /\ [file |-> nxt[1].file, off |-> nxt[1].off] # st.pos
                   THEN {D("the next attempt did not request the model's position", a + 1, 0)} ELSE {})
-              : r \in {ParserFold(StInit(pos), WithInject(Served(Files(S), pos), Plan(S, a)), 1, nGot,
+              : r \in {ParserFold(StInit(pos), WithInject(ServedByMaster(S, pos), Plan(S, a)), 1, nGot,
                                   [j \in 1..Len(LinesAtt(S, "handlerReturn", a)) |-> IF LinesAtt(S, "handlerReturn", a)[j].res.nil THEN "ok" ELSE "err"],
                                   [j \in 1..Len(LinesAtt(S, "mapperCall", a)) |-> LinesAtt(S, "mapperCall", a)[j].res], <<>>)} }
     : a \in 0..(NAttempts(S) - 1)}
@@ -636,6 +656,8 @@ TNext ==
           THEN LET bad == Failures([from |-> s0, to |-> l]) IN
                  /\ nviol' = nviol + Cardinality(bad)
                  /\ \A b \in bad : PrintT(<<"MONFAIL", ToJson(b)>>)
+                 /\ (Props \cap {"C04", "C05"} # {} /\ ParserChecked([from |-> s0, to |-> l]) > 0)
+                      => PrintT(<<"MONSTAT", "parser", ParserChecked([from |-> s0, to |-> l])>>)
           ELSE IF e.ev = "race" /\ "C05" \in Props
           THEN /\ nviol' = nviol + 1
                /\ PrintT(<<"MONFAIL", ToJson([mon |-> "C05.race", id |-> 0, fam |-> "race",
